@@ -81,7 +81,7 @@ func c07(r *ev.Run) {
 	}
 	defer func() { s.Close() }()
 	rnd := rand.New(rand.NewSource(r.Seed + 7))
-	reps := 2
+	reps := 3
 	if r.Tier == "thorough" {
 		reps = 25
 	}
